@@ -17,6 +17,7 @@ pub mod args;
 pub mod elems;
 pub mod fault;
 pub mod frame;
+pub mod glob;
 pub mod ledger;
 pub mod report;
 pub mod rng;
